@@ -18,6 +18,19 @@ CLAIMS = {
         "note": TRUSTED + "; exception-class hierarchy table for third-party classes (DESIGN Appendix B)",
         "technique": "CFG with exception edges: catch-all coverage, must-pass-through, value-set dataflow of status variables, plumbing tables",
     },
+    "C11": {
+        "text": "Protocol-shape analysis: the events a function can emit on any path (normal, anticipated-fault and "
+                "explicit-raise paths; callees that emit are inlined) form an NFA that is checked for inclusion in a "
+                "reference language written from the property (Run / Scenario / Worker / stateful thread / CLI stream) by "
+                "product construction; asynchronous Ctrl-C is added one blocking call site at a time. Also: setup/teardown "
+                "emit exactly ScenarioStarted/ScenarioFinished, ids of closing events derive from their opening event "
+                "(def-use), status folding is a guarded maximum, every PhaseName member has an executor arm. Not decided: "
+                "interleavings of several workers in the queue, events abandoned in the queue when the consumer stops on "
+                "the failure limit, second-order faults.",
+        "design_ref": "DESIGN.md §4 C11",
+        "note": TRUSTED + "; Hypothesis' setup/teardown contract; the reference grammars in sa/rules/c11.py",
+        "technique": "emission-language extraction over the CFG + NFA-in-DFA inclusion (product construction), def-use for ids",
+    },
     "C19": {
         "text": "Decides, on all paths of the current source, the structural clauses behind 'extensions apply exactly where "
                 "their own filters say': closure-cell ownership of the per-registration FilterSet in to_filterable_hook "
